@@ -188,12 +188,17 @@ def build_world() -> World:
        "bounded:StateNode.__init__ builds every `after` entry with source=self")
     ax("D-after-wf", "forall[Node, int](lambda n, i: implies(n != None and 0 <= i and i < len(n.after), keys(n.after)[i] in n.after), lambda n, i: keys(n.after)[i])",
        "definition (python dict: every enumerated key is a key of the dict)")
+    ax("D-after-wf2", "forall[Node, Opaque](lambda n, k: implies(n != None and k in n.after, 0 <= keyidx(n.after, k) and keyidx(n.after, k) < len(n.after) and keys(n.after)[keyidx(n.after, k)] == k), lambda n, k: k in n.after)",
+       "definition (python dict: every key of the dict is enumerated)")
     ax("D-invoke-source", "forall[Node, int](lambda n, i: implies(n != None and 0 <= i and i < len(n.invoke), n.invoke[i] != None and n.invoke[i].source == n), lambda n, i: n.invoke[i])",
        "bounded:StateNode.__init__ builds InvokeDefinition(..., source=self)")
     ax("D-invoke-ondone-source", "forall[Inv, int](lambda v, i: implies(v != None and 0 <= i and i < len(v.on_done), v.on_done[i] != None and v.on_done[i].source == v.source), lambda v, i: v.on_done[i])",
        "bounded:InvokeDefinition.__init__ builds onDone transitions with the invoking state as source")
     ax("D-invoke-onerror-source", "forall[Inv, int](lambda v, i: implies(v != None and 0 <= i and i < len(v.on_error), v.on_error[i] != None and v.on_error[i].source == v.source), lambda v, i: v.on_error[i])",
        "bounded:InvokeDefinition.__init__ builds onError transitions with the invoking state as source")
+
+    # whether a declared delay resolves to a number (BaseInterpreter._resolve_delay; a function of the declaration and the context)
+    w.fn("rdelay_ok", [OPAQUE, OPAQUE], BOOL)
 
     # ---- guard definitions (C06): a finite tree of GuardDefinition objects
     w.fn("gsize", [Guard], INT)
@@ -316,6 +321,8 @@ def build_world() -> World:
                     k = z3.Const("fk", hv.sort.key.z)
                     st.assume(z3.ForAll([k], z3.Implies(z3.Select(hv.t[2], k), z3.Select(hv.t[3], k) != fl.z)))
             return [(st, fl)]
+        if name == "inspect.iscoroutinefunction":
+            return [(st, fresh(BOOL, "iscoro"))]       # a total, effect-free test of a python callable (outside the modelled value domain)
         if name == "threading.Thread":
             return [(st, fresh(OPAQUE, "thread"))]     # the thread BODY is a concurrent entry point, not executed here (A-seq)
         if name in ("<Opaque>.start",):
@@ -340,6 +347,7 @@ def build_world() -> World:
             return [(st, fresh(OPAQUE, "userret"))]
         return None
     w.external_hook = external_hook
+    w.subclass_for_dispatch = {"BaseInterpreter": "Interpreter"}
 
     # What calling a user ACTION may do (assumption A-user, action flavour): besides returning anything or raising,
     # it may write context and use the interpreter's public API - send() (append-only while an event is being
